@@ -3,6 +3,8 @@ package checks
 import (
 	"fmt"
 	"io"
+	"strconv"
+	"strings"
 	"time"
 
 	"github.com/hugelgupf/p9/p9"
@@ -61,7 +63,24 @@ func stormWorld(c *ev.Ctx, seed uint64, yield bool) (*memfs.FS, *rawpeer.Peer, b
 	return fs, p, ok
 }
 
+// stormRejTag is the tag range of the rejected frames mixed into storms; their
+// Rlerror replies (carrying that tag or NOTAG) are not matched to requests.
+const stormRejTag = 60000
+
 func stormSend(p *rawpeer.Peer, r *ev.Rand, tag uint16) string {
+	if r.Intn(7) == 0 {
+		// a well-delimited frame the receiver rejects (unknown type, body too
+		// short): its error reply is produced on another path than ordinary
+		// replies and must not cut into them
+		switch r.Intn(3) {
+		case 0:
+			p.SendRaw(wire.Frame(54, stormRejTag+uint16(r.Intn(1000)), r.Bytes(r.Intn(40)))) // Tgetlock: not served
+		case 1:
+			p.SendRaw(wire.Frame(wire.Twalk, stormRejTag+uint16(r.Intn(1000)), []byte{1, 0, 0}))
+		default:
+			p.SendRaw(wire.Frame(wire.Twrite, stormRejTag+uint16(r.Intn(1000)), r.Bytes(r.Intn(16))))
+		}
+	}
 	switch r.Intn(6) {
 	case 0, 1:
 		p.Send(wire.Tread, tag, u(uint64(20+r.Intn(8))), u(uint64(r.Intn(1000))), u(uint64(r.Intn(9000))))
@@ -150,6 +169,9 @@ func c06Storms(c *ev.Ctx) {
 						break
 					}
 					progress = true
+					if t := rep.Msg.Tag; t == 0xFFFF || (t >= stormRejTag && t < stormRejTag+1000) {
+						continue // answers a rejected frame: no tag of ours came back
+					}
 					if cn.sent < total {
 						mix[stormSend(cn.p, rr, rep.Msg.Tag)]++
 						cn.sent++
@@ -190,6 +212,10 @@ func c06Storms(c *ev.Ctx) {
 		frames := int64(0)
 		for _, cn := range conns {
 			for _, m := range cn.p.Monitor() {
+				if stormRejReply(m) {
+					c.Count("rejected_frames_answered", 1)
+					continue
+				}
 				c.Violation("C06:storm:"+firstWord(m), map[string]any{"monitor": m, "inflight": inflight, "conns": nconn})
 			}
 			if err := cn.p.ReadErr(); err != nil {
@@ -204,6 +230,16 @@ func c06Storms(c *ev.Ctx) {
 			c.Sample(map[string]any{"workload": "storm", "connections": nconn, "in_flight": inflight, "requests": total * nconn, "mix": mix})
 		}
 	}
+}
+
+// stormRejReply recognises the monitor's line for the Rlerror answering one of
+// the storm's rejected frames.
+func stormRejReply(m string) bool {
+	if !strings.HasPrefix(m, "reply-stream:unsolicited-reply type=Rlerror tag=") {
+		return false
+	}
+	t, err := strconv.Atoi(strings.TrimPrefix(m, "reply-stream:unsolicited-reply type=Rlerror tag="))
+	return err == nil && (t == 0xFFFF || (t >= stormRejTag && t < stormRejTag+1000))
 }
 
 func perms(n int) [][]int {
